@@ -22,8 +22,11 @@ func (s *hPullStore) Dequeue(req queue.DequeueRequest) (queue.DequeueResponse, e
 	s.dequeues = append(s.dequeues, req.Route)
 	return queue.DequeueResponse{}, nil
 }
-func (s *hPullStore) Ack(string) error                 { s.dequeues = append(s.dequeues, "ack"); return nil }
-func (s *hPullStore) Nack(string, time.Duration) error { s.dequeues = append(s.dequeues, "nack"); return nil }
+func (s *hPullStore) Ack(string) error { s.dequeues = append(s.dequeues, "ack"); return nil }
+func (s *hPullStore) Nack(string, time.Duration) error {
+	s.dequeues = append(s.dequeues, "nack")
+	return nil
+}
 
 // verif:harness props=C11 tier=quick native=yes weight=15
 // verif:bounds two pull routes: /own (endpoint /e1) with its own token, /shared (endpoint /e2) without; global pull token; request URL from 9 spellings of <endpoint>/dequeue (canonical, doubled slash, dot segment, trailing slash, leading double slash, dot-dot segment, each endpoint) and an unconfigured endpoint; Authorization from {route token, global token, other route's... none}; the whole chain runtimeState.authorizePull -> pullapi.ServeHTTP -> resolvePull is real
